@@ -200,10 +200,20 @@ def sym(ctx, cfg):
             saved = (M.__dict__.get("open"), M.pickle, M.pd)
             M.open, M.pickle, M.pd = vopen, _Pickle, _PdText
             try:
-                from pathlib import Path
-                model.save(Path("/vfs/model.pkl"))
-                loaded = M.load_model(Path("/vfs/model.pkl"))
+                from pathlib import PurePosixPath
+
+                class _VP(PurePosixPath):
+                    """a path whose open() reaches the in-memory file, like the builtin open() above"""
+
+                    def open(self, mode="r", *a, **k):
+                        return vopen(self, mode)
+                saved_path = M.__dict__.get("Path")
+                M.Path = _VP
+                model.save(_VP("/vfs/model.pkl"))
+                loaded = M.load_model(_VP("/vfs/model.pkl"))
             finally:
+                if saved_path is not None:
+                    M.Path = saved_path
                 M.pickle, M.pd = saved[1], saved[2]
                 if saved[0] is None:
                     M.__dict__.pop("open", None)
